@@ -449,12 +449,17 @@ theorem flatten_filter_ne_nil {α} (ts : List (List α)) : (ts.filter (· ≠ []
     · have : (t :: rest).filter (· ≠ []) = t :: rest.filter (· ≠ []) := by simp [h]
       rw [this, List.flatten_cons, ih]; simp
 
-/-- a stream of chunks: empty chunks are skipped, the header is written iff some chunk is non-empty -/
+/-- a stream of chunks is the same as successive `write` calls: the header is written by the first chunk, empty or not -/
 theorem writes_compose_stream (hdr : Bytes) (dump : List Row → Bytes) (hadd : Additive dump) (ts : List (List Row)) :
     writeStream hdr dump false (initState .write true) ts
-      = (if ts.filter (· ≠ []) = [] then [] else hdr) ++ dump ts.flatten := by
+      = (if ts = [] then [] else hdr) ++ dump ts.flatten := by
   unfold writeStream
-  rw [writes_compose hdr dump hadd, flatten_filter_ne_nil]
+  exact writes_compose hdr dump hadd true ts
+
+/-- the shipped stream rule dropped the header of a stream whose chunks are all empty -/
+theorem writeStreamOld_unsound :
+    writeStreamOld [35, 10] (fun t => List.replicate t.length 120) false (initState .write true) [[], []] = [] ∧
+    writeStream [35, 10] (fun t => List.replicate t.length 120) false (initState .write true) [[], []] = [35, 10] := by decide
 
 theorem map_dump_flatten (dump : List Row → Bytes) (hadd : Additive dump) (ts : List (List Row)) :
     (ts.map dump).flatten = dump ts.flatten := by
